@@ -76,7 +76,8 @@ pub struct Board {
     /// one-shot faults addressed by pin: the next operation on that pin fails
     pub pin_faults: Vec<(u8, FaultMode)>,
     /// Index of ops that failed
-    pub failed_ops: Vec<u64>,
+    /// (operation index, source) of every injected failure that fired; source = pin id, 100 = SPI, 101 = recording interface
+    pub failed_ops: Vec<(u64, u8)>,
     /// remaining low-level operations before a termination violation is raised
     pub budget: u64,
     /// remaining words a recording interface may pull from a pixel iterator
@@ -119,7 +120,7 @@ impl Board {
     }
 
     #[inline]
-    fn next_op(&mut self) -> (u64, Option<FaultMode>) {
+    fn next_op(&mut self, src: u8) -> (u64, Option<FaultMode>) {
         let i = self.ops;
         self.ops += 1;
         if self.budget == 0 {
@@ -133,7 +134,7 @@ impl Board {
             }
         }
         if f.is_some() {
-            self.failed_ops.push(i);
+            self.failed_ops.push((i, src));
         }
         (i, f)
     }
@@ -164,12 +165,12 @@ impl VPin {
     #[inline]
     fn set(&mut self, high: bool) -> Result<(), PinFault> {
         let mut b = self.bd.borrow_mut();
-        let (op, mut f) = b.next_op();
         let pin = self.pin;
+        let (op, mut f) = b.next_op(pin);
         if let Some(k) = b.pin_faults.iter().position(|x| x.0 == pin) {
             let (_, m) = b.pin_faults.remove(k);
             f = Some(m);
-            b.failed_ops.push(op);
+            b.failed_ops.push((op, pin));
         }
         let (ok, applied) = match f {
             None => (true, true),
@@ -231,7 +232,7 @@ impl spi::ErrorType for VSpi {
 impl SpiDevice<u8> for VSpi {
     fn transaction(&mut self, operations: &mut [Operation<'_, u8>]) -> Result<(), SpiFault> {
         let mut b = self.bd.borrow_mut();
-        let (op, f) = b.next_op();
+        let (op, f) = b.next_op(100);
         let ok = f.is_none();
         let dc = b.levels[PIN_DC as usize];
         if operations.is_empty() && !b.count_only {
@@ -321,7 +322,7 @@ macro_rules! rec_iface {
 
             fn send_command(&mut self, command: u8, args: &[u8]) -> Result<(), RecFault> {
                 let mut b = self.bd.borrow_mut();
-                let (op, f) = b.next_op();
+                let (op, f) = b.next_op(101);
                 let ok = f.is_none();
                 if !b.count_only {
                     let off = b.bytes.len() as u32;
@@ -339,7 +340,7 @@ macro_rules! rec_iface {
                 &mut self,
                 pixels: impl IntoIterator<Item = [$word; N]>,
             ) -> Result<(), RecFault> {
-                let (op, f) = self.bd.borrow_mut().next_op();
+                let (op, f) = self.bd.borrow_mut().next_op(101);
                 let ok = f.is_none();
                 if !ok {
                     // a failed operation delivers nothing and pulls nothing
@@ -374,7 +375,7 @@ macro_rules! rec_iface {
                 count: u32,
             ) -> Result<(), RecFault> {
                 let mut b = self.bd.borrow_mut();
-                let (op, f) = b.next_op();
+                let (op, f) = b.next_op(101);
                 let ok = f.is_none();
                 let off = b.words.len() as u32;
                 for w in pixel {
